@@ -2,6 +2,7 @@
 package props
 
 import (
+	_ "verif/internal/props/c01"
 	_ "verif/internal/props/c05"
 	_ "verif/internal/props/c18"
 )
